@@ -41,6 +41,7 @@ RULE += (' Also: a queue (deque) handed to await_each and filled further before 
 RULE += (' Also: sync() of built-in callables (next, bound list.pop / dict.get, getattr, operator.getitem) handing out stored awaitables.')
 RULE += (' Also: sync() wrappers called with keywords of any name (function, self, args ...) and, stored as class attributes, through instances.')
 RULE += (" Also: the caller's one-shot iterator (synchronous or asynchronous) is still usable, with everything not taken, after an any_iter stream over it was closed early.")
+RULE += (' Also: any_iter over an async iterator that sets itself up in __aiter__.')
 ASSUMPTIONS = ["direct specification oracle (no stdlib twin exists for these helpers)"]
 EXHAUSTIVE = {"quick": True, "thorough": True}
 MAX_SHARDS = 8
@@ -50,7 +51,7 @@ def cases(tier, seed, shard, nshards):
     idx = 0
     for n in range(0, 7):
         for outer_aw in (False, True, "awaitobj", "future_like"):
-            for cont in ("list", "iterator", "aiter", "dual", "falsy_list"):
+            for cont in ("list", "iterator", "aiter", "dual", "falsy_list", "lazy_setup"):
                 for item_aw in (False, True, "awaitobj", "mixed", "lookalike"):
                     for steps in range(0, n + 2):
                         for susp in (0, 1):
@@ -434,6 +435,23 @@ def run_any_iter(case, stats):
             for i, it in enumerate(items):
                 yield cell(i, it)
         cont = agen()
+        if case["cont"] == "lazy_setup":
+            # an async iterator that sets itself up when it is asked for its iterator (``self.pos = 0; return self``):
+            # stepping it without having called ``__aiter__`` is a protocol breach of the caller
+            class LazySetup:
+                def __init__(self, inner):
+                    self.inner = inner
+
+                def __aiter__(self):
+                    self.ready = True
+                    return self
+
+                def __anext__(self):
+                    if not getattr(self, "ready", False):
+                        CTX.foreign.append("an async iterator was advanced although its __aiter__ had never been called")
+                    return self.inner.__anext__()
+
+            cont = LazySetup(cont)
         if case["cont"] == "dual":
             # an object offering BOTH protocols (a result set / stream whose synchronous iteration is refused - or gives
             # something else - in asynchronous code): it is asynchronously iterable, and that is how it is iterated
@@ -516,7 +534,7 @@ def run_any_iter(case, stats):
         for c in cont:
             if hasattr(c, "close") and hasattr(c, "cr_frame"):
                 c.close()
-    if case["cont"] not in ("list", "falsy_list", "dual") and case["steps"] <= n:
+    if case["cont"] not in ("list", "falsy_list", "dual", "lazy_setup") and case["steps"] <= n:
         # the source is the CALLER's one-shot iterator, synchronous or asynchronous alike: closing the any_iter stream
         # early leaves it usable, with everything that was not taken still in it
         rest = []
